@@ -97,6 +97,9 @@ func (h *transportHandle) Close() error {
 	}
 
 	err := h.Client.Goodbye()
+	if err != nil {
+		err = fmt.Errorf("plugin %q failed to shut down: %v", h.name, err)
+	}
 	if closer, ok := h.Transport.(io.Closer); ok {
 		err = multierr.Append(err, closer.Close())
 	}
